@@ -36,6 +36,16 @@ def opsC17Factor : Handler := fun st fields =>
     match BaseKind.parse a, BaseKind.parse b with
     | some x, some y => some (st, s!"ok\t{(ratioKind x y).str}")
     | _, _ => none
+  | ["c17.fshape", a, b] =>
+    -- a unit is given as `s:<symbol>` or `other`
+    let parse := fun (x : String) => if x == "other" then some UnitShape.other
+      else if x.startsWith "s:" then some (UnitShape.symbol (String.ofList (x.toList.drop 2))) else none
+    match parse a, parse b with
+    | some x, some y =>
+      match shapeFactorKind liveUnitBaseKinds x y with
+      | some k => some (st, s!"ok\t{k.str}")
+      | none => some (st, "none")
+    | _, _ => none
   | ["c17.foffsetkind", fk] =>
     match FactorKind.parse fk with
     | some fk => some (st, s!"ok\t{(offsetKind fk).str}")
